@@ -444,5 +444,5 @@ def run(ctx):
     ctx.cov['rule'] = ('every edge of the bounded clock graph (lattice of instants around day/second/microsecond carries and a year '
                        'end, 10 durations, call sequences to depth 3) executed on timeutils and through TimeFixture; every comparison '
                        'case now x relative t x 9 offsets x {naive, aware, ISO text} x 9 thresholds incl. the exact boundary; '
-                       'marshalling and named zones on random instants; recorded clock traces validated by Trace_TimeOverride')
+                       'marshalling (form shape, forms naming zones by key) and named zones on random instants; order / thread replay of the pure helpers; recorded clock traces validated by Trace_TimeOverride')
     ctx.cov['exhaustive'] = True
